@@ -178,3 +178,14 @@ From HC.Proofs Require Import TieTables.
 Theorem C20_source_default_timeout : src_default_swr_timeout = default_swr_timeout.
 Proof. exact tie_default_swr_timeout. Qed.
 Print Assumptions C20_source_default_timeout.
+
+(* the effect trees this property is stated about — which store / origin / clock operations happen, in which order, under
+   which conditions, and what every path returns — are those /verif/translate derives from the Go source on this run
+   (Generated/SrcEffects.v; equal up to the extensional equality of continuations, ProgEq.peq, which [run] respects) *)
+From HC.Generated Require Import SrcEffects.
+From HC.Proofs Require Import ProgEq TieEffects.
+Theorem C20_source_effects :
+  (forall q e k refs i, peq (src_handle_cache_hit q e k refs i) (handle_cache_hit q e k refs i)) /\
+  (forall q e k f cc, peq (src_background_revalidate q e k f cc) (background_revalidate q e k f cc)).
+Proof. repeat split; [exact tie_handle_cache_hit|exact tie_background_revalidate]. Qed.
+Print Assumptions C20_source_effects.
